@@ -64,11 +64,10 @@ theorem C06_sparse_eq_dense (regions : List Rec) (bin : Nat) (ops : List BOp) (h
   have _ := ht
   sparse_run regions bin ops hbin hr
 
-/-- index-to-region / index-to-chromosome lookups return exactly that bin for every valid index and
-`None` for every index `>= len()` (in particular on the empty region list) -/
-theorem C06_getRegion (regions : List Rec) (bin idx : Nat) (hbin : 0 < bin) (hr : ∀ r ∈ regions, r.start < r.stop) :
-    getRegion regions bin idx = .ok ((allBins regions bin)[idx]?) := by
-  unfold getRegion
+/-- the lookup with unbounded addition -/
+theorem C06_getRegionIdeal (regions : List Rec) (bin idx : Nat) (hbin : 0 < bin) (hr : ∀ r ∈ regions, r.start < r.stop) :
+    getRegionIdeal regions bin idx = .ok ((allBins regions bin)[idx]?) := by
+  unfold getRegionIdeal
   simp only [accu_eq]
   by_cases hge : idx ≥ (allBins regions bin).length
   · simp [hge]
@@ -79,6 +78,42 @@ theorem C06_getRegion (regions : List Rec) (bin idx : Nat) (hbin : 0 < bin) (hr 
     · rw [h1, h4]
       have : ¬ c + 1 < 1 := by omega
       simp only [this, if_false, Nat.add_sub_cancel, h2, if_true, List.getElem?_eq_getElem hc, h3, binOf_eq]
+/-- saturating addition is exact below a bound that is itself ≤ u64::MAX -/
+theorem C06_satAdd_min (a b c : Nat) (hc : c ≤ U64MAX) : min (satAdd a b) c = min (a + b) c := by
+  unfold satAdd; omega
+
+/-- the repaired `get_region` (saturating addition on u64) computes what unbounded addition computes,
+for all regions with coordinates ≤ u64::MAX — no `NoOverflow` hypothesis is needed -/
+theorem C06_getRegion_eq_ideal (regions : List Rec) (bin idx : Nat) (hmax : ∀ r ∈ regions, r.stop ≤ U64MAX) :
+    getRegion regions bin idx = getRegionIdeal regions bin idx := by
+  unfold getRegion getRegionIdeal
+  simp only
+  split
+  · rfl
+  · split
+    · split
+      · split
+        · rename_i site hs
+          rw [C06_satAdd_min _ _ _ (hmax site (List.mem_of_getElem? hs))]
+        · rfl
+      · rfl
+    · split
+      · rfl
+      · split
+        · split
+          · rename_i site prev hs _
+            rw [C06_satAdd_min _ _ _ (hmax site (List.mem_of_getElem? hs))]
+          · rfl
+        · rfl
+
+/-- index-to-region / index-to-chromosome lookups return exactly that bin for every valid index and
+`None` for every index `>= len()` (in particular on the empty region list), for regions anywhere in
+the u64 range (top of the range included) -/
+theorem C06_getRegion (regions : List Rec) (bin idx : Nat) (hbin : 0 < bin) (hr : ∀ r ∈ regions, r.start < r.stop)
+    (hmax : ∀ r ∈ regions, r.stop ≤ U64MAX) :
+    getRegion regions bin idx = .ok ((allBins regions bin)[idx]?) := by
+  rw [C06_getRegion_eq_ideal regions bin idx hmax]
+  exact C06_getRegionIdeal regions bin idx hbin hr
 theorem C06_getChrom (regions : List Rec) (bin idx : Nat) (hbin : 0 < bin) (hr : ∀ r ∈ regions, r.start < r.stop) :
     getChrom regions bin idx = .ok (((allBins regions bin)[idx]?).map (·.chrom)) := by
   unfold getChrom
@@ -96,5 +131,10 @@ theorem C06_getChrom (regions : List Rec) (bin idx : Nat) (hbin : 0 < bin) (hr :
 /-- witnesses (regression of the repaired defect): index = len is `None`; empty region list -/
 example : getRegion [⟨[], 0, 1000⟩] 400 3 = .ok none ∧ getRegion [⟨[], 0, 1000⟩] 400 2 = .ok (some ⟨[], 800, 1000⟩) ∧
     getRegion [] 10 0 = .ok none := by decide +kernel
+
+/-- witness of the repaired top-of-range defect: region [u64::MAX-3, u64::MAX), bin 2: `get_region(1)` is the
+last bin (the unrepaired code computed `start + bin_size` past u64::MAX) -/
+example : getRegion [⟨[99], 18446744073709551612, 18446744073709551615⟩] 2 1
+    = .ok (some ⟨[99], 18446744073709551614, 18446744073709551615⟩) := by decide +kernel
 
 end BV
